@@ -196,7 +196,7 @@ func RunVM(p *P, opts ugo.CompilerOptions, ro run.Opts) (run.Outcome, *ugo.Bytec
 	if err != nil || pan != "" {
 		return run.Outcome{}, nil, err, pan
 	}
-	lg := &run.Logger{}
+	lg := &run.Logger{Plain: len(p.Src)%2 == 1} // half of the programs call L through the VM's plain object-call path
 	g := run.Globals(p.Globals, lg)
 	if ro.Timeout == 0 {
 		ro.Timeout = 5 * time.Second
